@@ -262,7 +262,7 @@ fn eval_level(run: &LvRun, sub: Option<V>) -> Result<V, String> {
     };
     let empty = Vec::new();
     let occs = |n: &NamedSpec| run.occ.get(&n.id).unwrap_or(&empty);
-    let mut words = run.words.iter();
+    let mut words = run.words.iter().peekable();
     let mut vals = Vec::new();
     let take_word = |p: &PosSpec, w: &(Vec<u8>, bool)| -> Result<V, String> {
         match p.strict {
@@ -271,6 +271,11 @@ fn eval_level(run: &LvRun, sub: Option<V>) -> Result<V, String> {
             _ => {}
         }
         conv(p.ty, &w.0)
+    };
+    // a non strict positional simply does not see words from the right of `--`: optional and
+    // repeated ones stop there
+    let sees = |p: &PosSpec, w: &(Vec<u8>, bool)| -> bool {
+        !(p.strict == Strictness::NonStrict && w.1)
     };
     for f in fields {
         let v = match f {
@@ -303,9 +308,12 @@ fn eval_level(run: &LvRun, sub: Option<V>) -> Result<V, String> {
                         _ => return Err(format!("{} given twice", l.first_name())),
                     }
                 }
-                Node::Pos(p) => match words.next() {
-                    Some(w) => V::some(take_word(p, w)?),
-                    None => V::none(),
+                Node::Pos(p) => match words.peek() {
+                    Some(w) if sees(p, w) => {
+                        let w = words.next().unwrap();
+                        V::some(take_word(p, w)?)
+                    }
+                    _ => V::none(),
                 },
                 Node::Alt(_) => match &sub {
                     Some(v) => V::some(v.clone()),
@@ -322,7 +330,11 @@ fn eval_level(run: &LvRun, sub: Option<V>) -> Result<V, String> {
                         }
                     }
                     Node::Pos(p) => {
-                        for w in words.by_ref() {
+                        while let Some(w) = words.peek() {
+                            if !sees(p, w) {
+                                break;
+                            }
+                            let w = words.next().unwrap();
                             xs.push(take_word(p, w)?);
                         }
                     }
